@@ -158,5 +158,27 @@ def chunk(r, data, style=None):
     return res
 
 
+def tokens(r, role, chunks, p_write=0.25):
+    """read chunks as harness tokens, for a minority of streams with a scripted transmit side: `@Wb` (the
+    transmit path is full from here on: a peer that does not read), `@Wa<k>` (next write call taken up to k
+    bytes), `@R` (room again). For the client a leading write token takes effect before the request is sent."""
+    toks = [hexs(c) for c in chunks]
+    if r.random() >= p_write:
+        return toks
+    kind = r.random()
+    pos = 0 if (role == 'client' and r.random() < 0.6) else r.randrange(0, len(toks) + 1)
+    if kind < 0.55:
+        ins = ['@Wb']
+    elif kind < 0.8:
+        ins = ['@Wa%d' % r.choice([0, 1, 2, 5, 7, 8, 11, 12, 100]), '@Wb']
+    else:
+        ins = ['@Wa%d' % r.choice([1, 2, 5, 7, 8, 11, 12, 100]) for _ in range(r.choice([1, 2, 3]))]
+    toks = toks[:pos] + ins + toks[pos:]
+    if '@Wb' in ins and r.random() < 0.5:
+        q = r.randrange(pos + len(ins), len(toks) + 1)
+        toks = toks[:q] + ['@R'] + toks[q:]
+    return toks
+
+
 def hexs(bs):
     return ''.join('%02X' % b for b in bs)
